@@ -1,7 +1,7 @@
 (** C08 -- an adapter index changes only speed, never what is found.
     Property theorems only.  Model: Model/Index.v. *)
 From Coq Require Import ZArith List Bool.
-From CV Require Import Generated.Tables Model.Base Model.Align Model.Adapters Model.Index Proofs.IndexProofs Proofs.IndexLoop.
+From CV Require Import Generated.Tables Model.Base Model.Align Model.Adapters Model.Index Proofs.IndexProofs Proofs.IndexLoop Proofs.AlignDist Proofs.IndexDist.
 Import ListNotations.
 Open Scope Z_scope.
 
@@ -57,6 +57,18 @@ Theorem C08_unique_reported : forall prefix ads sequence r0 x0 e0 m0,
   exists rs re e m, index_match prefix ads sequence = Some (r0, rs, re, e, m) /\ coords_ok prefix (zlen sequence) (r0, rs, re, e, m).
 Proof. exact index_reports_unique. Qed.
 Print Assumptions C08_unique_reported.
+
+(** the reported error count of an entry is its exact distance and lies within the tolerance: the
+    edit distance (unit costs) for adapters with indels, the Hamming distance without *)
+Theorem C08_entry_exact : forall ads s r e m,
+  Forall wf_iad ads -> index_lookup ads s = Some (r, e, m) ->
+  exists a, nth_error ads r = Some a /\ e <= ia_k a /\
+    (if a_indels (ia_ad a)
+     then ed Z.eqb 1 (map acgt_code (a_seq (ia_ad a))) (map code_of_acgt s) e /\
+          (forall x, ed Z.eqb 1 (map acgt_code (a_seq (ia_ad a))) (map code_of_acgt s) x -> e <= x)
+     else length s = length (a_seq (ia_ad a)) /\ e = hamming (a_seq (ia_ad a)) s).
+Proof. exact index_entry_exact. Qed.
+Print Assumptions C08_entry_exact.
 
 (** non-vacuity: two 3' adapters of different lengths with indels, a read that is exactly the
     shorter adapter (the F8a input): the hypotheses hold and the whole read is reported as a match *)
